@@ -177,6 +177,7 @@ func cmdWorker(args []string) int {
 		Known: map[string]int{}, KnownSample: map[string]string{}, RunDigests: map[string]uint64{}}
 	states := map[string]bool{}
 	var digests []uint64
+	var doneRuns []int // runs executed by this process so far, in order
 	const sampleEvery = 40
 	for run := si; run < *runs; run += sn {
 		if *shadow && run%sampleEvery != 0 {
@@ -187,7 +188,12 @@ func cmdWorker(args []string) int {
 			break
 		}
 		t := makeTrace(p, *seed, *tier, run)
+		if os.Getenv("LZSIM_TRACE") != "" {
+			fmt.Fprintf(os.Stderr, "run %d\n", run)
+		}
 		res := p.Exec(t)
+		prior := doneRuns
+		doneRuns = append(doneRuns, run)
 		wo.Runs++
 		wo.OpsTotal += int64(res.OpsDone)
 		wo.TicksTotal += res.Ticks
@@ -233,17 +239,60 @@ func cmdWorker(args []string) int {
 				}
 				continue
 			}
-			// minimise and write the replay file
+			// minimise, then confirm in a fresh process; a violation that
+			// depends on process-wide library state needs its history
 			before := len(t.Ops)
+			orig := t.Clone()
 			mt, mv := shrinkTrace(p, t, res.Viol, 60*time.Second)
-			mt.Expect = &Expect{Prop: mv.Prop, Clause: mv.Clause, Msg: mv.Msg, Step: mv.Step, Sig: mv.Sig}
 			path := filepath.Join(*replays, fmt.Sprintf("%s-s%d-r%d.json", p.ID, *seed, run))
 			os.MkdirAll(*replays, 0o755)
-			if err := os.WriteFile(path, mt.JSON(), 0o644); err != nil {
-				fmt.Fprintln(os.Stderr, "lzsim: cannot write replay:", err)
-				return 2
+			write := func(tr *Trace, v *Violation, hist []int) bool {
+				c := tr.Clone()
+				c.Expect = &Expect{Prop: v.Prop, Clause: v.Clause, Msg: v.Msg, Step: v.Step, Sig: v.Sig}
+				c.History = nil
+				if len(hist) > 0 {
+					c.History = &History{Seed: *seed, Tier: *tier, Runs: hist}
+				}
+				if err := os.WriteFile(path, c.JSON(), 0o644); err != nil {
+					fmt.Fprintln(os.Stderr, "lzsim: cannot write replay:", err)
+					os.Exit(2)
+				}
+				self, _ := os.Executable()
+				err := exec.Command(self, "replay", "-file", path, "-quiet").Run()
+				ee, ok := err.(*exec.ExitError)
+				return ok && ee.ExitCode() == 1
 			}
-			wo.Violations = append(wo.Violations, WorkerViolation{Run: run, Viol: mv, Replay: path, OpsBefore: before, OpsAfter: len(mt.Ops)})
+			final := mt
+			switch {
+			case write(mt, mv, nil):
+			case write(orig, res.Viol, nil):
+				final, mv = orig, res.Viol
+			case write(orig, res.Viol, prior):
+				// reproduces with the history of this worker: minimise the history
+				final, mv = orig, res.Viol
+				hist := append([]int(nil), prior...)
+				deadline := time.Now().Add(90 * time.Second)
+				for chunk := len(hist) / 2; chunk >= 1 && time.Now().Before(deadline); {
+					progress := false
+					for i := 0; i+chunk <= len(hist) && time.Now().Before(deadline); {
+						cand := append(append([]int(nil), hist[:i]...), hist[i+chunk:]...)
+						if write(orig, res.Viol, cand) {
+							hist = cand
+							progress = true
+							continue
+						}
+						i += chunk
+					}
+					if !progress || chunk == 1 {
+						chunk /= 2
+					}
+				}
+				write(orig, res.Viol, hist)
+				wo.Probes["violation_needed_process_history"]++
+			default:
+				write(mt, mv, nil) // leave the minimised trace; the driver reports non-reproduction
+			}
+			wo.Violations = append(wo.Violations, WorkerViolation{Run: run, Viol: mv, Replay: path, OpsBefore: before, OpsAfter: len(final.Ops)})
 			break // first unknown violation ends this worker
 		}
 	}
@@ -287,6 +336,11 @@ func cmdReplay(args []string) int {
 	if p == nil {
 		fmt.Fprintln(os.Stderr, "unknown property in replay file")
 		return 2
+	}
+	if t.History != nil {
+		for _, r := range t.History.Runs {
+			p.Exec(makeTrace(p, t.History.Seed, t.History.Tier, r))
+		}
 	}
 	res := p.Exec(&t)
 	if res.Viol == nil {
